@@ -123,7 +123,22 @@ def run_check(modname, tier, seed, replay=None):
         order = sorted(range(len(jobs)), key=lambda i: -float(cases[i].get('cost', 0)) if isinstance(cases[i], dict) else 0)
         with ctx.Pool(nproc, maxtasksperchild=getattr(mod, 'MAXTASKS', None)) as pool:
             it = pool.imap_unordered(_worker, [jobs[i] for i in order], chunksize=getattr(mod, 'CHUNK', 1))
-            for r in it:
+            pids0 = set(p.pid for p in pool._pool)
+            ndone = 0
+            while ndone < len(jobs):
+                try:
+                    r = it.next(timeout=20)
+                except multiprocessing.TimeoutError:
+                    # a worker that is killed (out of memory, segmentation fault) takes its case with it and the pool would
+                    # wait for ever: make that a loud harness error instead of a hang
+                    if getattr(mod, 'MAXTASKS', None) is None and set(p.pid for p in pool._pool) != pids0:
+                        pool.terminate()
+                        raise RuntimeError('a worker process died (killed by the system?) while evaluating {}; {} of {} cases '
+                                           'were completed'.format(pid, ndone, len(jobs)))
+                    continue
+                except StopIteration:
+                    break
+                ndone += 1
                 results[r['_idx']] = r
                 if cap and time.time() - t0 > cap:
                     capped = True; pool.terminate(); break
